@@ -120,7 +120,7 @@ func census(dir string, baseline map[int64]bool, what string) *Violation {
 
 func storeOptsBusy(cfg Config) []store.Option {
 	return []store.Option{store.IndexBitSize(cfg.Bits), store.IndexFileSize(cfg.IdxSize), store.PrimaryFileSize(cfg.PrimSize), store.FileCacheSize(cfg.FileCache),
-		store.GCInterval(time.Millisecond), store.GCTimeLimit(0), store.SyncInterval(time.Millisecond), store.BurstRate(1 << 40)}
+		store.GCInterval(time.Millisecond), store.GCTimeLimit(0), store.SyncInterval(time.Millisecond), store.BurstRate(1 << 40), store.SyncOnFlush(cfg.Sync)}
 }
 
 func openBusy(dir string, cfg Config) (*store.Store, error) {
